@@ -9,6 +9,7 @@
 -/
 import Std.Data.String.ToInt
 import BB.Proofs.Basic
+import BB.Proofs.DictEq
 import BB.Proofs.Copy
 import BB.Proofs.RoundTrip
 import BB.Model.Describe
@@ -396,7 +397,7 @@ theorem roundtrip_bp_extra (b : BP) (h1 : Inv b) (h2 : Inv2 b) (hok : ∀ s ∈ 
 section element
 open BB.Element
 
-theorem upsert_of_not_mem {α : Type} (d : Dict Chan α) (k : Chan) (v : α) (h : k ∉ Dict.keys d) :
+theorem upsert_of_not_mem {κ α : Type} [DecidableEq κ] (d : Dict κ α) (k : κ) (v : α) (h : k ∉ Dict.keys d) :
     Dict.upsert d k v = d ++ [(k, v)] := by
   induction d with
   | nil => rfl
@@ -409,7 +410,7 @@ theorem upsert_of_not_mem {α : Type} (d : Dict Chan α) (k : Chan) (v : α) (h 
       intro hm; apply h; simp only [Dict.keys, List.map_cons, List.mem_cons]; right; exact hm
     simp only [hk, if_false, List.cons_append, ih hr]
 
-theorem upsert_append_self {α : Type} (d : Dict Chan α) (k : Chan) (v v' : α) (h : k ∉ Dict.keys d) :
+theorem upsert_append_self {κ α : Type} [DecidableEq κ] (d : Dict κ α) (k : κ) (v v' : α) (h : k ∉ Dict.keys d) :
     Dict.upsert (d ++ [(k, v)]) k v' = d ++ [(k, v')] := by
   induction d with
   | nil => simp [Dict.upsert]
@@ -421,7 +422,7 @@ theorem upsert_append_self {α : Type} (d : Dict Chan α) (k : Chan) (v v' : α)
       intro hm; apply h; simp only [Dict.keys, List.map_cons, List.mem_cons]; right; exact hm
     simp only [List.cons_append, Dict.upsert, hk, if_false, ih hr]
 
-theorem get?_append_self {α : Type} (d : Dict Chan α) (k : Chan) (v : α) (h : k ∉ Dict.keys d) :
+theorem get?_append_self {κ α : Type} [DecidableEq κ] (d : Dict κ α) (k : κ) (v : α) (h : k ∉ Dict.keys d) :
     Dict.get? (d ++ [(k, v)]) k = some v := by
   rw [← upsert_of_not_mem d k v h]
   exact Dict.get?_upsert_self d k v
@@ -491,19 +492,30 @@ theorem chanDesc_flags (b : BP) (fl : List Nat) (l : List (String × J)) (hl : b
   simp only [hl]
   rfl
 
+/-- a channel entry read back at sample rate `sr` (`none`: no sample rate known) -/
+def reSR (sr : Option Val) (ent : ChEntry) : ChEntry :=
+  match ent.data with
+  | .bp b => { ent with data := .bp (withSR { b with SR := .none } sr) }
+  | _ => ent
+
+theorem reSR_none (ent : ChEntry) : reSR none ent = stripSR ent := by
+  unfold reSR stripSR withSR
+  cases ent.data <;> rfl
+
 /-- one channel read back into an element that does not have it yet -/
-theorem chanOfDesc_step (e0 : Element) (p : Chan × ChEntry) (hp : ChanOk p) (hnew : p.1 ∉ Dict.keys e0.chans)
-    (kd : String × J) (hkd : chanField p = .ok kd) :
-    chanOfDesc e0 kd.1 kd.2 none = .ok { e0 with chans := e0.chans ++ [(p.1, stripSR p.2)] } := by
+theorem chanOfDesc_step' (e0 : Element) (p : Chan × ChEntry) (hp : ChanOk p) (hnew : p.1 ∉ Dict.keys e0.chans)
+    (kd : String × J) (hkd : chanField p = .ok kd) (sr : Option Val) :
+    chanOfDesc e0 kd.1 kd.2 sr = .ok { e0 with chans := e0.chans ++ [(p.1, reSR sr p.2)] } := by
   obtain ⟨ch, ent⟩ := p
   obtain ⟨⟨nch, hint⟩, b, hdata, h1, h2, hok, hne, hfl⟩ := hp
   obtain ⟨dat, flags⟩ := ent
   simp only at hdata hfl hint hnew
   have hparse : parseChan ch.toStr = .ok ch := by rw [hint]; exact parseChan_int nch
   subst hdata
-  have hb' : BP.copy { b with SR := Val.none } = { b with SR := Val.none } := copy_eq_self h1 h2
-  have hempty : ({ b with SR := Val.none } : BP).segs.isEmpty = false := by
-    simpa [List.isEmpty_iff] using hne
+  have hb' : BP.copy (withSR { b with SR := Val.none } sr) = withSR { b with SR := Val.none } sr := by
+    cases sr <;> exact copy_eq_self h1 h2
+  have hempty : (withSR { b with SR := Val.none } sr).segs.isEmpty = false := by
+    cases sr <;> simpa [withSR, List.isEmpty_iff] using hne
   obtain ⟨l, hl⟩ : ∃ l, b.toDesc = .obj l := ⟨_, desc_shape b⟩
   cases flags with
   | none =>
@@ -511,8 +523,8 @@ theorem chanOfDesc_step (e0 : Element) (p : Chan × ChEntry) (hp : ChanOk p) (hn
       simp only [chanField, chanDesc_plain, Except.ok.injEq] at hkd
       exact hkd.symm
     subst this
-    simp only [chanOfDesc, hparse, roundtrip_bp b h1 h2 hok, withSR, addBluePrint, hempty, Bool.false_eq_true, if_false,
-      no_flags_field b, hb', stripSR]
+    simp only [chanOfDesc, hparse, roundtrip_bp b h1 h2 hok, addBluePrint, hempty, Bool.false_eq_true, if_false,
+      no_flags_field b, hb', reSR]
     rw [upsert_of_not_mem _ _ _ hnew]
   | some fl =>
     obtain ⟨hlen, hle⟩ := hfl fl rfl
@@ -529,10 +541,15 @@ theorem chanOfDesc_step (e0 : Element) (p : Chan × ChEntry) (hp : ChanOk p) (hn
     simp only [flagsJ] at hrt
     have hlenb : Gen.flagsLenBad (List.map J.toVal (fl.map (fun (n : Nat) => J.num ((n : Int) : Rat)))).length = false := by
       simp [Gen.flagsLenBad, hlen]
-    simp only [chanOfDesc, hparse, hrt, withSR, addBluePrint, hempty, Bool.false_eq_true, if_false,
-      flags_field b l hl, flagsJ, addFlags, hlenb, flags_back fl hle, hb', stripSR]
+    simp only [chanOfDesc, hparse, hrt, addBluePrint, hempty, Bool.false_eq_true, if_false,
+      flags_field b l hl, flagsJ, addFlags, hlenb, flags_back fl hle, hb', reSR]
     rw [upsert_of_not_mem _ _ _ hnew, get?_append_self _ _ _ hnew]
     simp only [upsert_append_self _ _ _ _ hnew]
+
+theorem chanOfDesc_step (e0 : Element) (p : Chan × ChEntry) (hp : ChanOk p) (hnew : p.1 ∉ Dict.keys e0.chans)
+    (kd : String × J) (hkd : chanField p = .ok kd) :
+    chanOfDesc e0 kd.1 kd.2 none = .ok { e0 with chans := e0.chans ++ [(p.1, stripSR p.2)] } := by
+  rw [chanOfDesc_step' e0 p hp hnew kd hkd none, reSR_none]
 
 /-- **the round trip of an element**: an element whose channels are integer-numbered blueprint
     channels (blueprints reachable through the public API over the built-in shapes, flags as
@@ -621,7 +638,10 @@ def exFn : Fn := { special := false, name := "ramp", qual := "function PulseAtom
 def exBP : BP := { segs := [{ name := "ramp", fn := exFn, args := [.num 0, .num 1], dur := .num 1 },
                             { name := "ramp2", fn := exFn, args := [.num 1, .num 0], dur := .num 2 }], SR := .num 10 }
 
-example : ∀ p ∈ ([(Chan.int 1, ⟨.bp exBP, none⟩), (Chan.int 2, ⟨.bp exBP, some [0, 3, 0, 1]⟩)] : Dict Chan ChEntry), ChanOk p := by
+def exChans : Dict Chan ChEntry := [(Chan.int 1, ⟨.bp exBP, none⟩), (Chan.int 2, ⟨.bp exBP, some [0, 3, 0, 1]⟩)]
+
+theorem exChans_ok : ∀ p ∈ exChans, ChanOk p := by
+  unfold exChans
   have hinv : BP.Inv exBP := by unfold BP.Inv; decide +kernel
   have hinv2 : Inv2 exBP := by unfold Inv2 NameOk; decide +kernel
   have hseg : ∀ s ∈ exBP.segs, SegOk s := by
@@ -638,6 +658,510 @@ example : ∀ p ∈ ([(Chan.int 1, ⟨.bp exBP, none⟩), (Chan.int 2, ⟨.bp ex
     exact ⟨rfl, by decide⟩
 
 end element
+
+/-! ### the round trip of a sequence -/
+
+section sequence
+open BB.Element BB.Sequence
+
+theorem chanField_key (p : Chan × ChEntry) (kd : String × J) (h : chanField p = .ok kd) : kd.1 = p.1.toStr := by
+  unfold chanField at h
+  split at h
+  · cases h
+  · simp only [Except.ok.injEq] at h
+    rw [← h]
+
+/-- amplitude and offset of the given channels carried over from the description's settings -/
+def carryAll (specs : List (String × J)) (s : Sequence) (chs : List Chan) : Sequence :=
+  chs.foldl (fun s ch =>
+    (s.setChannelAmplitude ch (J.toVal ((specs.lookup (keyOf ch "amplitude")).getD .null))).setChannelOffset ch
+      (J.toVal ((specs.lookup (keyOf ch "offset")).getD .null))) s
+
+/-- the channels of one position, read back one after the other -/
+theorem chan_fold (specs : List (String × J)) (sr : Val) :
+    ∀ (rest : Dict Chan ChEntry) (fs : List (String × J)) (acc : Dict Chan ChEntry) (s0 : Sequence),
+      rest.mapM chanField = .ok fs → (Dict.keys (acc ++ rest)).Nodup → (∀ p ∈ rest, ChanOk p) →
+      (∀ p ∈ rest, (specs.lookup (keyOf p.1 "amplitude")).isSome ∧ (specs.lookup (keyOf p.1 "offset")).isSome) →
+      fs.foldlM (chanStep specs sr) ((⟨acc, none⟩ : Element), s0) =
+        .ok ((⟨acc ++ rest.map (fun p => (p.1, reSR (some sr) p.2)), none⟩ : Element), carryAll specs s0 (rest.map (·.1))) := by
+  intro rest
+  induction rest with
+  | nil =>
+    intro fs acc s0 hfs _ _ _
+    simp only [List.mapM_nil, pure, Except.pure, Except.ok.injEq] at hfs
+    subst hfs
+    simp [List.foldlM, pure, Except.pure, carryAll]
+  | cons p ps ih =>
+    intro fs acc s0 hfs hnd hok hsp
+    rw [mapM_cons_eq] at hfs
+    cases hp : chanField p with
+    | error er => rw [hp] at hfs; cases hfs
+    | ok kd =>
+      rw [hp] at hfs
+      cases hps : ps.mapM chanField with
+      | error er => rw [hps] at hfs; cases hfs
+      | ok fs' =>
+        rw [hps] at hfs
+        simp only [Except.ok.injEq] at hfs
+        subst hfs
+        have hnew : p.1 ∉ Dict.keys acc := by
+          intro hm
+          simp only [Dict.keys, List.map_append, List.map_cons] at hnd hm
+          have := List.nodup_append.mp hnd
+          exact this.2.2 _ hm _ (by simp) rfl
+        have hcok := hok p (by simp)
+        have hstep := chanOfDesc_step' ⟨acc, none⟩ p hcok hnew kd hp (some sr)
+        obtain ⟨nch, hint⟩ := hcok.1
+        have hparse : parseChan kd.1 = .ok p.1 := by
+          rw [chanField_key p kd hp, hint]; exact parseChan_int nch
+        obtain ⟨ha, ho⟩ := hsp p (by simp)
+        obtain ⟨a, ha⟩ := Option.isSome_iff_exists.mp ha
+        obtain ⟨o, ho⟩ := Option.isSome_iff_exists.mp ho
+        have hone : chanStep specs sr ((⟨acc, none⟩ : Element), s0) kd =
+            .ok ((⟨acc ++ [(p.1, reSR (some sr) p.2)], none⟩ : Element),
+                 (s0.setChannelAmplitude p.1 (J.toVal a)).setChannelOffset p.1 (J.toVal o)) := by
+          simp only [chanStep, hstep, hparse, ha, ho]
+        simp only [List.foldlM_cons, bind, Except.bind, hone]
+        have := ih fs' (acc ++ [(p.1, reSR (some sr) p.2)]) ((s0.setChannelAmplitude p.1 (J.toVal a)).setChannelOffset p.1 (J.toVal o)) hps
+          (by
+            simp only [Dict.keys, List.map_append, List.map_cons, List.map_nil, List.append_assoc, List.cons_append,
+              List.nil_append] at hnd ⊢
+            exact hnd)
+          (fun q hq => hok q (by simp [hq])) (fun q hq => hsp q (by simp [hq]))
+        rw [this]
+        simp [carryAll, ha, ho]
+
+theorem carryAll_data (specs : List (String × J)) (s : Sequence) (chs : List Chan) :
+    (carryAll specs s chs).data = s.data ∧ (carryAll specs s chs).sequencing = s.sequencing ∧ (carryAll specs s chs).name = s.name := by
+  induction chs generalizing s with
+  | nil => exact ⟨rfl, rfl, rfl⟩
+  | cons c cs ih =>
+    simp only [carryAll, List.foldl_cons]
+    exact ih _
+
+theorem toString_toInt (n : Int) : (toString n).toInt? = some n := by
+  have : (toString n : String) = n.repr := rfl
+  rw [this, Int.toInt?_repr]
+
+theorem seqSetOfJ_back (q : SeqSet) (l : List (String × J)) (h : seqSetJ q = .obj l) : seqSetOfJ l = .ok q := by
+  have := seqset_roundtrip q
+  simp only [h] at this
+  simp only [Prod.mk.injEq] at this
+  obtain ⟨h1, h2, h3, h4, h5⟩ := this
+  simp only [seqSetOfJ, h1, h2, h3, h4, h5]
+
+/-- one position read back -/
+theorem posStep_el (s : Sequence) (specs : List (String × J)) (sr : Val) (s0 : Sequence)
+    (pos : Int) (chans : Dict Chan ChEntry) (cache : Option (Val × Rat)) (kd : String × J) (q : SeqSet) (m : Val × Rat)
+    (hfield : posField s (pos, .el ⟨chans, cache⟩) = .ok kd)
+    (hnd : (Dict.keys chans).Nodup) (hok : ∀ p ∈ chans, ChanOk p)
+    (hsr : ∀ p ∈ chans, reSR (some sr) p.2 = p.2)
+    (hsp : ∀ p ∈ chans, (specs.lookup (keyOf p.1 "amplitude")).isSome ∧ (specs.lookup (keyOf p.1 "offset")).isSome)
+    (hval : Element.validate ⟨chans, none⟩ = .ok m)
+    (hq : Dict.get? s.sequencing pos = some q) :
+    posStep specs sr s0 kd =
+      .ok { carryAll specs s0 (chans.map (·.1)) with
+            data := Dict.upsert (carryAll specs s0 (chans.map (·.1))).data pos (.el ⟨chans, some m⟩)
+            sequencing := Dict.upsert (Dict.upsert (carryAll specs s0 (chans.map (·.1))).sequencing pos defaultSeqEl) pos q } := by
+  unfold posField at hfield
+  simp only [Element.toDesc] at hfield
+  cases hfs : chans.mapM chanField with
+  | error er => rw [hfs] at hfield; cases hfield
+  | ok fields =>
+    rw [hfs] at hfield
+    simp only [Except.ok.injEq] at hfield
+    subst hfield
+    have hfold := chan_fold specs sr chans fields [] s0 hfs (by simpa using hnd) hok hsp
+    have hmap : chans.map (fun p => (p.1, reSR (some sr) p.2)) = chans := by
+      conv => rhs; rw [← List.map_id chans]
+      apply List.map_congr_left
+      intro p hp
+      rw [hsr p hp]; rfl
+    rw [List.nil_append, hmap] at hfold
+    obtain ⟨ql, hql⟩ : ∃ ql, seqSetJ q = .obj ql := ⟨_, rfl⟩
+    have hseqn : seqnJ s pos = .obj ql := by
+      unfold seqnJ; rw [hq]; exact hql
+    have hne : ("sequencing" == "channels") = false := by decide
+    simp only [posStep, J.get?, List.lookup, beq_self_eq_true, hfold, toString_toInt,
+      Sequence.addElement, hval, hseqn, hne, seqSetOfJ_back q ql hql]
+
+/-- `A` holds nothing `B` does not hold -/
+def SubMap (A B : Dict String Spec) : Prop := ∀ k v, Dict.get? A k = some v → Dict.get? B k = some v
+
+theorem SubMap.upsert {A B : Dict String Spec} (h : SubMap A B) (k : String) (v : Spec) (hv : Dict.get? B k = some v) :
+    SubMap (Dict.upsert A k v) B := by
+  intro k' v' hk'
+  by_cases he : k' = k
+  · subst he
+    rw [Dict.get?_upsert_self] at hk'
+    cases hk'; exact hv
+  · rw [Dict.get?_upsert_other _ _ _ _ he] at hk'
+    exact h k' v' hk'
+
+/-- the description's settings are the sequence's, key by key -/
+theorem lookup_awgspecsJ (B : Dict String Spec) (k : String) :
+    (B.map (fun kv => (kv.1, specJ kv.2))).lookup k = (Dict.get? B k).map specJ := by
+  induction B with
+  | nil => rfl
+  | cons p ps ih =>
+    obtain ⟨k', v⟩ := p
+    simp only [List.map_cons, List.lookup, Dict.get?, List.find?_cons]
+    by_cases he : k' = k
+    · subst he; simp
+    · have h1 : (k == k') = false := by simpa using fun e => he e.symm
+      have h2 : decide (k' = k) = false := by simpa using he
+      simp only [h1, h2]
+      simpa [Dict.get?] using ih
+
+theorem awgspecsJ_fields (B : Dict String Spec) : awgspecsJ B = .obj (B.map (fun kv => (kv.1, specJ kv.2))) := by
+  unfold awgspecsJ
+  congr 1
+
+/-- carrying amplitude and offset over keeps the settings inside the original's -/
+theorem carryAll_sub (B : Dict String Spec) (s0 : Sequence) (chs : List Chan) (hsub : SubMap s0.awgspecs B)
+    (hch : ∀ ch ∈ chs, (∃ a, Dict.get? B (keyOf ch "amplitude") = some (.val a)) ∧ ∃ o, Dict.get? B (keyOf ch "offset") = some (.val o)) :
+    SubMap (carryAll (B.map (fun kv => (kv.1, specJ kv.2))) s0 chs).awgspecs B := by
+  induction chs generalizing s0 with
+  | nil => exact hsub
+  | cons c cs ih =>
+    simp only [carryAll, List.foldl_cons]
+    apply ih
+    · obtain ⟨⟨a, ha⟩, ⟨o, ho⟩⟩ := hch c (by simp)
+      have h1 : List.lookup (keyOf c "amplitude") (B.map (fun kv => (kv.1, specJ kv.2))) = some (J.ofVal a) := by
+        rw [lookup_awgspecsJ, ha]; rfl
+      have h2 : List.lookup (keyOf c "offset") (B.map (fun kv => (kv.1, specJ kv.2))) = some (J.ofVal o) := by
+        rw [lookup_awgspecsJ, ho]; rfl
+      simp only [h1, h2, Option.getD_some, val_roundtrip,
+        SeqCore.setChannelOffset, SeqCore.setChannelAmplitude, SeqCore.setSpec]
+      exact (hsub.upsert _ _ ha).upsert _ _ ho
+    · exact fun ch hc => hch ch (by simp [hc])
+
+/-- what a sequence must be like for `sequence_from_description` to rebuild it: every position
+    holds an element as `addElement` stored it (validated, cache filled) whose channels are
+    integer-numbered blueprint channels at the sequence's sample rate with amplitude and offset
+    set; sequencing entries in position order; a sample rate -/
+structure SeqOk (s : Sequence) (sr : Val) : Prop where
+  posNodup : (Dict.keys s.data).Nodup
+  seqKeys : Dict.keys s.sequencing = Dict.keys s.data
+  specsNodup : (Dict.keys s.awgspecs).Nodup
+  srSet : Dict.get? s.awgspecs "SR" = some (.val sr)
+  noName : s.name = ""
+  entries : ∀ pe ∈ s.data, ∃ (chans : Dict Chan ChEntry) (m : Val × Rat),
+    pe.2 = .el ⟨chans, some m⟩ ∧ Element.validate ⟨chans, none⟩ = .ok m ∧ (Dict.keys chans).Nodup ∧
+    ∀ p ∈ chans, ChanOk p ∧ reSR (some sr) p.2 = p.2 ∧
+      (∃ a, Dict.get? s.awgspecs (keyOf p.1 "amplitude") = some (.val a)) ∧
+      (∃ o, Dict.get? s.awgspecs (keyOf p.1 "offset") = some (.val o))
+
+theorem get?_of_keys_eq {α β : Type} (d1 : Dict Int α) (d2 : Dict Int β) (h : Dict.keys d1 = Dict.keys d2) (k : Int)
+    (hk : k ∈ Dict.keys d2) : ∃ v, Dict.get? d1 k = some v := by
+  have : k ∈ Dict.keys d1 := by rw [h]; exact hk
+  exact Option.isSome_iff_exists.mp ((Dict.get?_isSome_iff d1 k).mpr this)
+
+/-- the positions, read back one after the other -/
+theorem pos_fold (s : Sequence) (sr : Val) (hs : SeqOk s sr) :
+    ∀ (rest : Dict Int Entry) (pre : Dict Int Entry) (fs : List (String × J)) (s0 : Sequence),
+      s.data = pre ++ rest → rest.mapM (posField s) = .ok fs →
+      s0.data = pre → Dict.keys s0.sequencing = Dict.keys pre → SubMap s0.awgspecs s.awgspecs →
+      ∃ sf, fs.foldlM (posStep (s.awgspecs.map (fun kv => (kv.1, specJ kv.2))) sr) s0 = .ok sf ∧
+        sf.data = s.data ∧ Dict.keys sf.sequencing = Dict.keys s.data ∧
+        (∀ pe ∈ rest, Dict.get? sf.sequencing pe.1 = Dict.get? s.sequencing pe.1) ∧
+        (∀ k, k ∈ Dict.keys pre → Dict.get? sf.sequencing k = Dict.get? s0.sequencing k) ∧
+        SubMap sf.awgspecs s.awgspecs ∧ sf.name = s0.name := by
+  intro rest
+  induction rest with
+  | nil =>
+    intro pre fs s0 hdata hfs hd hq hsub
+    simp only [List.mapM_nil, pure, Except.pure, Except.ok.injEq] at hfs
+    subst hfs
+    refine ⟨s0, rfl, by rw [hd, hdata, List.append_nil], by rw [hq, hdata, List.append_nil], by simp, fun _ _ => rfl, hsub, rfl⟩
+  | cons pe ps ih =>
+    intro pre fs s0 hdata hfs hd hq hsub
+    rw [mapM_cons_eq] at hfs
+    cases hp : posField s pe with
+    | error er => rw [hp] at hfs; cases hfs
+    | ok kd =>
+      rw [hp] at hfs
+      cases hps : ps.mapM (posField s) with
+      | error er => rw [hps] at hfs; cases hfs
+      | ok fs' =>
+        rw [hps] at hfs
+        simp only [Except.ok.injEq] at hfs
+        subst hfs
+        obtain ⟨pos, ent⟩ := pe
+        have hmem : (pos, ent) ∈ s.data := by rw [hdata]; simp
+        obtain ⟨chans, m, hent, hval, hnd, hch⟩ := hs.entries (pos, ent) hmem
+        simp only at hent
+        subst hent
+        -- the sequencing entry of this position
+        obtain ⟨q, hq'⟩ := get?_of_keys_eq s.sequencing s.data hs.seqKeys pos (by
+          simp only [Dict.keys, hdata, List.map_append, List.map_cons, List.mem_append, List.mem_cons]; right; left; trivial)
+        have hstep := posStep_el s (s.awgspecs.map (fun kv => (kv.1, specJ kv.2))) sr s0 pos chans (some m) kd q m hp hnd
+          (fun p hp => (hch p hp).1) (fun p hp => (hch p hp).2.1)
+          (fun p hp => by
+            obtain ⟨_, _, ⟨a, ha⟩, ⟨o, ho⟩⟩ := hch p hp
+            simp [lookup_awgspecsJ, ha, ho])
+          hval hq'
+        -- pos is new for the accumulator
+        have hnodup := hs.posNodup
+        rw [hdata] at hnodup
+        simp only [Dict.keys, List.map_append, List.map_cons] at hnodup
+        have hnew : pos ∉ Dict.keys pre := by
+          intro hm
+          exact (List.nodup_append.mp hnodup).2.2 _ hm _ (by simp) rfl
+        obtain ⟨hcd, hcq, hcn⟩ := carryAll_data (s.awgspecs.map (fun kv => (kv.1, specJ kv.2))) s0 (chans.map (·.1))
+        let s1 : Sequence :=
+          { carryAll (s.awgspecs.map (fun kv => (kv.1, specJ kv.2))) s0 (chans.map (·.1)) with
+            data := Dict.upsert (carryAll (s.awgspecs.map (fun kv => (kv.1, specJ kv.2))) s0 (chans.map (·.1))).data pos (.el ⟨chans, some m⟩)
+            sequencing := Dict.upsert (Dict.upsert (carryAll (s.awgspecs.map (fun kv => (kv.1, specJ kv.2))) s0 (chans.map (·.1))).sequencing pos defaultSeqEl) pos q }
+        have hs1d : s1.data = pre ++ [(pos, .el ⟨chans, some m⟩)] := by
+          show Dict.upsert _ pos _ = _
+          rw [hcd, hd, upsert_of_not_mem _ _ _ hnew]
+        have hnewq : pos ∉ Dict.keys s0.sequencing := by rw [hq]; exact hnew
+        have hs1q : s1.sequencing = s0.sequencing ++ [(pos, q)] := by
+          show Dict.upsert (Dict.upsert _ pos _) pos _ = _
+          rw [hcq, upsert_of_not_mem _ _ _ hnewq, upsert_append_self _ _ _ _ hnewq]
+        have hs1sub : SubMap s1.awgspecs s.awgspecs :=
+          carryAll_sub s.awgspecs s0 (chans.map (·.1)) hsub (by
+            intro ch hc
+            obtain ⟨p, hpm, rfl⟩ := List.mem_map.mp hc
+            exact ⟨(hch p hpm).2.2.1, (hch p hpm).2.2.2⟩)
+        obtain ⟨sf, hsf, hsfd, hsfk, hsfq, hsfpre, hsfsub, hsfn⟩ := ih (pre ++ [(pos, .el ⟨chans, some m⟩)]) fs' s1
+          (by rw [hdata]; simp) hps hs1d
+          (by rw [hs1q]; simp only [Dict.keys, List.map_append, List.map_cons, List.map_nil]; rw [show s0.sequencing.map (·.1) = pre.map (·.1) from hq])
+          hs1sub
+        refine ⟨sf, ?_, hsfd, hsfk, ?_, ?_, hsfsub, ?_⟩
+        · simp only [List.foldlM_cons, bind, Except.bind, hstep]
+          exact hsf
+        · intro pe' hpe'
+          simp only [List.mem_cons] at hpe'
+          rcases hpe' with h | h
+          · subst h
+            simp only
+            rw [hsfpre pos (by simp [Dict.keys]), hs1q, get?_append_self _ _ _ hnewq, hq']
+          · exact hsfq pe' h
+        · intro k hk
+          rw [hsfpre k (by simp only [Dict.keys, List.map_append, List.mem_append]; left; exact hk), hs1q]
+          have hne : k ≠ pos := fun e => hnew (e ▸ hk)
+          rw [← upsert_of_not_mem _ _ _ hnewq, Dict.get?_upsert_other _ _ _ _ hne]
+        · rw [hsfn]; exact hcn
+
+theorem has_eq_isSome {α : Type} (d : Dict String α) (k : String) : Dict.has d k = (Dict.get? d k).isSome := by
+  induction d with
+  | nil => rfl
+  | cons p ps ih =>
+    simp only [Dict.has, List.any_cons, Dict.get?, List.find?_cons] at ih ⊢
+    by_cases he : p.1 = k
+    · simp [he]
+    · simp only [he, decide_false, Bool.false_or]
+      exact ih
+
+/-- `setdefault` of every remaining setting -/
+theorem restSpecs_sub (B : Dict String Spec) :
+    ∀ (l : Dict String Spec) (A0 : Sequence), (∀ kv ∈ l, Dict.get? B kv.1 = some kv.2) → SubMap A0.awgspecs B →
+      SubMap (restSpecs A0 (l.map (fun kv => (kv.1, specJ kv.2)))).awgspecs B ∧
+      (∀ kv ∈ l, (Dict.get? (restSpecs A0 (l.map (fun kv => (kv.1, specJ kv.2)))).awgspecs kv.1).isSome = true) ∧
+      (∀ k, (Dict.get? A0.awgspecs k).isSome = true → (Dict.get? (restSpecs A0 (l.map (fun kv => (kv.1, specJ kv.2)))).awgspecs k).isSome = true) ∧
+      (restSpecs A0 (l.map (fun kv => (kv.1, specJ kv.2)))).data = A0.data ∧
+      (restSpecs A0 (l.map (fun kv => (kv.1, specJ kv.2)))).sequencing = A0.sequencing ∧
+      (restSpecs A0 (l.map (fun kv => (kv.1, specJ kv.2)))).name = A0.name := by
+  intro l
+  induction l with
+  | nil => intro A0 _ hsub; exact ⟨hsub, by simp, fun _ h => h, rfl, rfl, rfl⟩
+  | cons p ps ih =>
+    intro A0 hl hsub
+    obtain ⟨k, v⟩ := p
+    simp only [restSpecs, List.map_cons, List.foldl_cons]
+    have hB := hl (k, v) (by simp)
+    simp only at hB
+    by_cases hhas : Dict.has A0.awgspecs k = true
+    · simp only [hhas, if_true]
+      obtain ⟨h1, h2, h3, h4, h5, h6⟩ := ih A0 (fun kv hkv => hl kv (by simp [hkv])) hsub
+      refine ⟨h1, ?_, h3, h4, h5, h6⟩
+      intro kv hkv
+      simp only [List.mem_cons] at hkv
+      rcases hkv with h | h
+      · subst h
+        apply h3
+        rw [← has_eq_isSome]; exact hhas
+      · exact h2 kv h
+    · simp only [hhas, Bool.false_eq_true, if_false]
+      have hsub' : SubMap (A0.setSpec k (specOfJ (specJ v))).awgspecs B := by
+        rw [spec_roundtrip]
+        exact hsub.upsert k v hB
+      obtain ⟨h1, h2, h3, h4, h5, h6⟩ := ih (A0.setSpec k (specOfJ (specJ v))) (fun kv hkv => hl kv (by simp [hkv])) hsub'
+      refine ⟨h1, ?_, ?_, h4, h5, h6⟩
+      · intro kv hkv
+        simp only [List.mem_cons] at hkv
+        rcases hkv with h | h
+        · subst h
+          apply h3
+          simp [SeqCore.setSpec, Dict.get?_upsert_self]
+        · exact h2 kv h
+      · intro k' hk'
+        apply h3
+        by_cases he : k' = k
+        · subst he; simp [SeqCore.setSpec, Dict.get?_upsert_self]
+        · simp only [SeqCore.setSpec]
+          rw [Dict.get?_upsert_other _ _ _ _ he]
+          exact hk'
+
+theorem toString_ne_awgspecs (n : Int) : toString n ≠ "awgspecs" := by
+  intro h
+  have h1 := toString_toInt n
+  rw [h] at h1
+  rw [String.toInt?_eq_some_iff] at h1
+  rcases h1 with ⟨b, hb, _⟩ | ⟨t, ht, _⟩
+  · have hn := String.isNat_of_toNat?_eq_some hb
+    rw [String.isNat_iff] at hn
+    have := hn.2.1 'a' (by decide)
+    revert this; decide
+  · have := congrArg (fun s => s.toList.head?) ht
+    simp only [String.toList_append] at this
+    have h2 : ("-".toList ++ t.toList).head? = some '-' := by
+      have : "-".toList = ['-'] := by decide
+      rw [this]; rfl
+    rw [h2] at this
+    revert this; decide
+
+theorem posField_key (s : Sequence) (pe : Int × Entry) (kd : String × J) (h : posField s pe = .ok kd) : kd.1 = toString pe.1 := by
+  unfold posField at h
+  split at h
+  · cases h
+  · simp only [Except.ok.injEq] at h
+    rw [← h]
+
+theorem lookup_fields_awgspecs (s : Sequence) :
+    ∀ (l : Dict Int Entry) (fs : List (String × J)) (x : J), l.mapM (posField s) = .ok fs →
+      (fs ++ [("awgspecs", x)]).lookup "awgspecs" = some x := by
+  intro l
+  induction l with
+  | nil =>
+    intro fs x h
+    simp only [List.mapM_nil, pure, Except.pure, Except.ok.injEq] at h
+    subst h
+    simp [List.lookup]
+  | cons pe ps ih =>
+    intro fs x h
+    rw [mapM_cons_eq] at h
+    cases hp : posField s pe with
+    | error er => rw [hp] at h; cases h
+    | ok kd =>
+      rw [hp] at h
+      cases hps : ps.mapM (posField s) with
+      | error er => rw [hps] at h; cases h
+      | ok fs' =>
+        rw [hps] at h
+        simp only [Except.ok.injEq] at h
+        subst h
+        have hk := posField_key s pe kd hp
+        have hne : ("awgspecs" == kd.1) = false := by
+          rw [hk]
+          simpa using fun e => toString_ne_awgspecs pe.1 e.symm
+        obtain ⟨k, v⟩ := kd
+        simp only [List.cons_append, List.lookup]
+        simp only at hne
+        rw [hne]
+        exact ih fs' x hps
+
+/-- **the round trip of a sequence**: a sequence as the public API builds it over the built-in
+    shapes (`SeqOk`: elements stored by `addElement`, integer channels at the sequence's sample
+    rate with amplitude and offset set, sequencing in position order, a sample rate) is rebuilt by
+    `sequence_from_description` from its own description with the same elements at the same
+    positions — every blueprint, flag and cached validation —, the same sequencing entry for
+    every position and the same AWG settings key by key (sample rate, amplitudes, offsets, channel
+    delays, filter compensations; only their order may differ) -/
+theorem roundtrip_seq (s : Sequence) (sr : Val) (hs : SeqOk s sr) (d : J) (hd : s.toDesc = .ok d) :
+    ∃ s', Sequence.ofDesc d = .ok s' ∧ s'.data = s.data ∧ Dict.keys s'.sequencing = Dict.keys s.sequencing ∧
+      (∀ pe ∈ s.data, Dict.get? s'.sequencing pe.1 = Dict.get? s.sequencing pe.1) ∧
+      (∀ k, Dict.get? s'.awgspecs k = Dict.get? s.awgspecs k) ∧ s'.name = s.name := by
+  unfold Sequence.toDesc at hd
+  split at hd
+  · cases hd
+  · rename_i fields hfields
+    simp only [Except.ok.injEq] at hd
+    subst hd
+    have hget : (J.obj (fields ++ [("awgspecs", awgspecsJ s.awgspecs)])).get? "awgspecs" = some (awgspecsJ s.awgspecs) := by
+      simp only [J.get?]
+      exact lookup_fields_awgspecs s s.data fields _ hfields
+    have hsrl : (s.awgspecs.map (fun kv => (kv.1, specJ kv.2))).lookup "SR" = some (J.ofVal sr) := by
+      rw [lookup_awgspecsJ, hs.srSet]; rfl
+    obtain ⟨sf, hsf, hsfd, hsfk, hsfq, _, hsfsub, hsfn⟩ :=
+      pos_fold s sr hs s.data [] fields {} (by simp) hfields rfl rfl (fun k v h => by simp [Dict.get?] at h)
+    have hwf : ∀ kv ∈ s.awgspecs, Dict.get? s.awgspecs kv.1 = some kv.2 :=
+      fun kv hkv => Dict.get?_eq_some_of_mem hs.specsNodup kv.1 kv.2 hkv
+    obtain ⟨r1, r2, r3, r4, r5, r6⟩ := restSpecs_sub s.awgspecs s.awgspecs sf hwf hsfsub
+    refine ⟨(restSpecs sf (s.awgspecs.map (fun kv => (kv.1, specJ kv.2)))).setSR sr, ?_, ?_, ?_, ?_, ?_, ?_⟩
+    · rw [awgspecsJ_fields] at hget
+      rw [awgspecsJ_fields]
+      simp only [Sequence.ofDesc, hget, hsrl, List.dropLast_concat, val_roundtrip, hsf]
+    · show (restSpecs sf _).data = s.data
+      rw [r4, hsfd]
+    · show Dict.keys (restSpecs sf _).sequencing = _
+      rw [r5, hsfk, hs.seqKeys]
+    · intro pe hpe
+      show Dict.get? (restSpecs sf _).sequencing pe.1 = _
+      rw [r5]; exact hsfq pe hpe
+    · intro k
+      show Dict.get? (Dict.upsert (restSpecs sf _).awgspecs "SR" (.val sr)) k = _
+      -- the settings after `setdefault` are the original's, key by key
+      have hall : ∀ k, Dict.get? (restSpecs sf (s.awgspecs.map (fun kv => (kv.1, specJ kv.2)))).awgspecs k = Dict.get? s.awgspecs k := by
+        intro k
+        cases hB : Dict.get? s.awgspecs k with
+        | some v =>
+          have hmem := Dict.mem_of_get?_eq_some k v hB
+          have := r2 (k, v) hmem
+          obtain ⟨v', hv'⟩ := Option.isSome_iff_exists.mp this
+          simp only at hv'
+          rw [hv', ← hB]
+          exact (r1 k v' hv').symm
+        | none =>
+          cases hA : Dict.get? (restSpecs sf (s.awgspecs.map (fun kv => (kv.1, specJ kv.2)))).awgspecs k with
+          | none => rfl
+          | some v' => rw [r1 k v' hA] at hB; cases hB
+      by_cases he : k = "SR"
+      · subst he
+        rw [Dict.get?_upsert_self, hs.srSet]
+      · rw [Dict.get?_upsert_other _ _ _ _ he]
+        exact hall k
+    · show (restSpecs sf _).name = s.name
+      rw [r6, hsfn, hs.noName]
+
+/-! non-vacuity: a two-position sequence with flags, a channel delay and a filter compensation
+    meets `SeqOk` -/
+
+def exM : Val × Rat := (.num 10, 3)
+
+theorem exValidate : Element.validate ⟨exChans, none⟩ = .ok exM := by
+  have h : (Element.validate ⟨exChans, none⟩).toOption = some exM := by decide +kernel
+  cases hv : Element.validate ⟨exChans, none⟩ with
+  | error e => rw [hv] at h; cases h
+  | ok m => rw [hv] at h; simp only [Except.toOption, Option.some.injEq] at h; rw [h]
+
+def exSeq : Sequence :=
+  { data := [(1, .el ⟨exChans, some exM⟩), (2, .el ⟨exChans, some exM⟩)],
+    sequencing := [(1, ⟨0, 1, 0, 0, 0⟩), (2, ⟨1, 5, 0, 1, 1⟩)],
+    awgspecs := [("SR", .val (.num 10)), ("channel1_amplitude", .val (.num 2)), ("channel1_offset", .val (.num 0)),
+                 ("channel2_amplitude", .val (.num 1)), ("channel2_offset", .val (.num 0)),
+                 ("channel1_delay", .val (.num 0)), ("channel2_filtercompensation", .filt ⟨"HP", 1, .num 1, .none⟩)] }
+
+example : SeqOk exSeq (.num 10) := by
+  refine ⟨by decide, by decide, by decide, by decide, rfl, ?_⟩
+  intro pe hpe
+  refine ⟨exChans, exM, ?_, exValidate, by decide, ?_⟩
+  · simp only [exSeq, List.mem_cons, List.not_mem_nil, or_false] at hpe
+    rcases hpe with rfl | rfl <;> rfl
+  · intro p hp
+    refine ⟨exChans_ok p hp, ?_, ?_, ?_⟩
+    · simp only [exChans, List.mem_cons, List.not_mem_nil, or_false] at hp
+      rcases hp with rfl | rfl <;> decide
+    · simp only [exChans, List.mem_cons, List.not_mem_nil, or_false] at hp
+      rcases hp with rfl | rfl
+      · exact ⟨.num 2, by decide⟩
+      · exact ⟨.num 1, by decide⟩
+    · simp only [exChans, List.mem_cons, List.not_mem_nil, or_false] at hp
+      rcases hp with rfl | rfl <;> exact ⟨.num 0, by decide⟩
+
+end sequence
 
 /-! ### non-vacuity -/
 
